@@ -165,8 +165,8 @@ type quantizer struct {
 	// functions named here are the anchors the caller's expected shape talks about; they stay opaque.
 	stop     map[string]bool
 	opaque   map[*ssa.Function]bool // never inlined / seen through, even under inlineAll (their results are atoms)
-	idxProv  bool // describe range induction variables as idx(collection) and slices.Index as indexof(c, x)
-	seeInts  bool // see through in-module helpers for integer-typed results only (matcher algebra)
+	idxProv  bool                   // describe range induction variables as idx(collection) and slices.Index as indexof(c, x)
+	seeInts  bool                   // see through in-module helpers for integer-typed results only (matcher algebra)
 	retDepth int
 	p        *Prog
 	nloops   int
